@@ -20,18 +20,23 @@ def confirm(d):
         m = re.search(r"copy to <worktree>/(\S+)", head)
         r = re.search(r"run:\s*(.*)$", head)
         rel, runcmd = m.group(1), r.group(1).strip()
-        runcmd = re.sub(r"^cd \S+ &&\s*", "", runcmd)
+        sub = ""
+        mcd = re.match(r"^cd\s+(\S+)\s*&&\s*(.*)$", runcmd)
+        if mcd:
+            sub = mcd.group(1).replace("<worktree>", "").strip("/")
+            runcmd = mcd.group(2)
         subprocess.run(["git", "-C", "/repo", "worktree", "remove", "--force", wt], capture_output=True)
         shutil.rmtree(wt, ignore_errors=True)
         subprocess.run(["git", "-C", "/repo", "worktree", "add", "-q", "--detach", wt, "HEAD"], check=True, capture_output=True)
         shutil.copy(os.path.join(d, "demo_test.go"), os.path.join(wt, rel))
-        rc, out = sh(runcmd, wt)
+        rundir = os.path.join(wt, sub) if sub else wt
+        rc, out = sh(runcmd, rundir)
         res["pristine_demo_rc"] = rc; res["pristine_demo_tail"] = out[-600:]
         rc, out = sh("git apply --whitespace=nowarn " + os.path.join(d, "patch.diff"), wt)
         res["apply_rc"] = rc
         if rc != 0:
             res["apply_out"] = out
-        rc, out = sh(runcmd, wt)
+        rc, out = sh(runcmd, rundir)
         res["mutant_demo_rc"] = rc; res["mutant_demo_tail"] = out[-1200:]
         os.remove(os.path.join(wt, rel))
         rc, out = sh("go test -vet=off -count=1 ./...", wt)
